@@ -1946,7 +1946,13 @@ class Result:
         shorten_to = min(env_lengths) if n=='min' and env_lengths else n
         if len(env_lengths) > 1 or env_lengths.values() != {shorten_to}:
             n_shortened = sum(v for k,v in env_lengths.items() if k > shorten_to)
-            interactions = interactions.where(index={'<=':shorten_to}) #.4
+            #we keep the first `shorten_to` rows of every evaluation (selecting on the value of index is only the same thing
+            #when every evaluation is numbered 1,2,3... which is not so after, e.g., a where on index or with a 0-based index)
+            loc,keep = 0,[]
+            for _, length in interactions.groupby(3,'count'):
+                keep.extend(range(loc,loc+min(length,shorten_to)))
+                loc += length
+            interactions = Table(View(interactions._data,keep), interactions.columns, interactions.indexes)
             if n_shortened==1: CobaContext.logger.log(f"We shortened {n_shortened} learner evaluation because it was longer than the shortest environment.")
             if n_shortened>=2: CobaContext.logger.log(f"We shortened {n_shortened} learner evaluations because they were longer than the shortest environment.")
 
